@@ -49,7 +49,7 @@ def _pass(types, defs, seed, junk_per_type):
         junk = vs.junk_pool(env)
         idx = list(range(len(junk)))
         if junk_per_type is not None and junk_per_type < len(idx):
-            idx = sorted(set(rng.sample(idx, junk_per_type)) | set(idx[-5:]))      # the protocol-bending values always
+            idx = sorted(set(rng.sample(idx, junk_per_type)) | set(idx[-10:]))      # the protocol-bending values and attribute names always
         inputs += [("junk", i, junk[i]) for i in idx]
         for j, v in enumerate(values(T, env, rng, 2)):
             try:
